@@ -572,8 +572,24 @@ func init() {
 				}
 			}
 		}
+		// long values: eight entries, the tag at position j repeating the one at position i, for every i < j
+		// (whatever remembers the tags already written must remember all of them)
+		var longRepeats [][]interface{}
+		for i := 0; i < 8; i++ {
+			for j := i + 1; j < 8; j++ {
+				var l []interface{}
+				for k := 0; k < 8; k++ {
+					tag := append(append([]string{}, langTags...), "nl")[k]
+					if k == j {
+						tag = append(append([]string{}, langTags...), "nl")[i]
+					}
+					l = append(l, []interface{}{tag, fmt.Sprintf("text %d", k)})
+				}
+				longRepeats = append(longRepeats, l)
+			}
+		}
 		// repeated language references in one value, and numbers JSON cannot carry
-		for _, l := range [][]interface{}{
+		for _, l := range append(longRepeats, [][]interface{}{
 			{[]interface{}{"en", "one"}, []interface{}{"en", "two"}},
 			{[]interface{}{"en", "one"}, []interface{}{"fr", "deux"}, []interface{}{"en", "three"}},
 			{[]interface{}{"-", "one"}, []interface{}{"-", "two"}},
@@ -588,7 +604,7 @@ func init() {
 			{[]interface{}{"fr", "salut"}, []interface{}{"en", ""}},
 			{[]interface{}{"-", ""}, []interface{}{"en", "x"}, []interface{}{"fr", ""}},
 			{[]interface{}{"fr", "a"}, []interface{}{"fr", "b"}, []interface{}{"fr", "c"}},
-		} {
+		}...) {
 			for _, fld := range []string{"Name", "Summary", "Content"} {
 				tr := T{"t": "Object", "ptr": true, "f": T{"Type": T{"s": "Note"}, fld: T{"nlv": l}}}
 				c.Count(tr, true)
